@@ -160,6 +160,11 @@ class G:
             st_ = fixed if fixed is not None else 1
             a0 = r.randint(-4, 6)
             b0 = a0 + (r.randint(-1, 4) * abs(st_) + self.pick([0, 0, 0, 1, -1])) * (1 if st_ > 0 else -1)
+            if lo is not None and lo >= 0:
+                # unsigned loop target: only values of the declared C range
+                a0, b0 = abs(a0) + (3 * abs(st_) if st_ < 0 else 0), abs(b0)
+                if st_ < 0 and b0 > a0:
+                    b0 = max(0, a0 - 3 * abs(st_))
             rexpr = "range(%d, %d)" % (a0, b0) if nargs == 2 else "range(%d, %d, %s)" % (a0, b0, stepform)
         target = "i"
         it = rexpr
